@@ -1,10 +1,11 @@
 (* C12 — the scanner reports exactly the lexemes that are in the text.
    Statements only; proofs in Proofs/C12Proofs.v.  PARTIAL: the unbounded well-formedness
-   statement that every lexeme lies INSIDE the file and that lexemes are ordered is not proved
-   (begin <= end + 1 is); what is proved
+   statement that lexemes are ORDERED and cover exactly the written pieces is not proved
+   (inside the file, begin <= end + 1 and well-bracketing are); what is proved
    for all inputs is listed below (well-bracketed events, event tables, offsets), the rest is covered by the per-Next() correspondence and the exactness runs. *)
 From JS Require Import Base Bytes Scanner ScanRun C12Proofs EventSafe.
-From JS Require ExtentSafe.
+From JS Require ExtentSafe InFile.
+From Coq Require Import Lia.
 From JS Require LexemeEvents ScannerProg.
 Open Scope Z_scope.
 
@@ -56,6 +57,37 @@ Theorem C12_lexeme_extents_are_never_inverted :
     Forall (fun l => lb l <= le l + 1) ls.
 Proof. exact ExtentSafe.lexeme_extents_are_never_inverted. Qed.
 
+(* for EVERY input: every lexeme lies inside the file (0 <= Begin, End <= size - 1) - provided
+   the schema-length oracle (jsight-schema-core) never claims a schema longer than the rest of the
+   file; that contract is asserted on every answer the harness records.  Every event position of
+   every path of every step function is checked against what the path knows (cursor inside
+   [0, size] when a step starts; below size when the byte is known not to be the end-of-file
+   byte; explicit cursor moves are rewinds); no inferred table. *)
+Theorem C12_lexemes_lie_inside_the_file :
+  forall data tbl fuel, InFile.table_in_file data tbl ->
+    let '(ls, _, _) := lex_traj data tbl fuel (init_conf ScannerProg.initial_state) in
+    Forall (fun l => 0 <= lb l /\ le l <= data_size data - 1) ls.
+Proof. exact InFile.lexemes_lie_inside_the_file. Qed.
+
+(* hence Lexeme.Value() is defined for every lexeme the scanner returns (Go would panic on an
+   inverted or out-of-file slice: finding F2) *)
+Theorem C12_lexeme_values_are_defined :
+  forall data tbl fuel, InFile.table_in_file data tbl ->
+    let '(ls, _, _) := lex_traj data tbl fuel (init_conf ScannerProg.initial_state) in
+    Forall (fun l => lexeme_value data l <> None) ls.
+Proof.
+  intros data tbl fuel TB.
+  pose proof (InFile.lexemes_lie_inside_the_file data tbl fuel TB) as A.
+  pose proof (ExtentSafe.lexeme_extents_are_never_inverted data tbl fuel) as B.
+  destruct (lex_traj data tbl fuel (init_conf ScannerProg.initial_state)) as [[ls e] tr].
+  rewrite Forall_forall in *. intros l Hl. specialize (A l Hl). specialize (B l Hl).
+  unfold lexeme_value.
+  replace (lb l <? 0) with false by (symmetry; apply Z.ltb_ge; lia).
+  replace (le l + 1 <? lb l) with false by (symmetry; apply Z.ltb_ge; lia).
+  replace (Z.of_nat (List.length data) <? le l + 1) with false by (symmetry; apply Z.ltb_ge; unfold data_size in A; lia).
+  discriminate.
+Qed.
+
 (* ... and in every configuration the scanner can reach, the next queued event is processed
    successfully (never the "Ending lexeme event does not match beginning event" error) *)
 Theorem C12_queued_events_always_process :
@@ -75,6 +107,8 @@ Proof. exact f2_regression. Qed.
 Print Assumptions C12_lexeme_events_are_well_bracketed.
 Print Assumptions C12_queued_events_always_process.
 Print Assumptions C12_lexeme_extents_are_never_inverted.
+Print Assumptions C12_lexemes_lie_inside_the_file.
+Print Assumptions C12_lexeme_values_are_defined.
 Print Assumptions C12_event_offsets_partial.
 Print Assumptions C12_event_tables.
 Print Assumptions C12_lexeme_from_events.
